@@ -431,7 +431,7 @@ func (h *hist) placeIn(arena, content []byte, mode int) (arg []byte, region []by
 		h.c.Add("history_arg_with_spare_capacity", 1)
 		return arena[off : off+n], arena[off:]
 	default:
-		off := h.rng.Intn(len(arena) - n)
+		off := h.rng.Intn(len(arena) - n + 1) // also flush with the end of the arena
 		copy(arena[off:], content)
 		return arena[off : off+n : off+n], arena[off : off+n]
 	}
